@@ -172,7 +172,27 @@ def text_for(t, bpc):
     return b"".join(t.pick([b"\x82\xa0", b"\x83\x41", b"\x88\x9f", b"A", b"\xb1"], "txt.sjis") for _ in range(n))
 
 
-def text_document(t, ctx, label):
+# variants that collide with one another (same names, same shared objects, same process-wide tables): a pool draws most
+# of its fonts from one or two of these families, so that the collisions really happen within a document and a history
+FAMILIES = [
+    ["type0-shared-descendant-A", "type0-shared-descendant-B", "type0-shared-descendant-C"],
+    ["shared-diffs-A", "shared-diffs-B", "helvetica-custom-encoding", "helvetica"],
+    ["unknown-base-diffs-A", "unknown-base-diffs-B", "no-encoding", "times"],
+    ["type1-fontfile-A", "type1-fontfile-B", "no-encoding"],
+    ["cid-truetype-cmap2-A", "cid-truetype-cmap2-B", "identity-h"],
+    ["cjk-rksj-h", "cjk-rksj-h-as-stream-wmode1", "cjk-euc-h"],
+    ["cjk-unijis-v", "cjk-unijis-v-as-stream-wmode0", "identity-h"],
+    ["helvetica", "courier", "times", "truetype-tounicode"],
+]
+
+
+def pick_variant(t, names, theme, label):
+    if theme and t.coin(70, 100, label + ".themed"):
+        return t.pick(theme, label + ".fam")
+    return t.pick(names, label)
+
+
+def text_document(t, ctx, label, theme=None):
     """Multi-page document whose pages share or replace fonts under the same resource names."""
     objects = {}
     nxt = [3]
@@ -196,7 +216,7 @@ def text_document(t, ctx, label):
     kids = []
     features = set()
     direct_fonts = t.coin(25, 100, "doc.directfonts")
-    cur = {b"F1": t.pick(names, "doc.f1"), b"F2": t.pick(names, "doc.f2")}
+    cur = {b"F1": pick_variant(t, names, theme, "doc.f1"), b"F2": pick_variant(t, names, theme, "doc.f2")}
     shared_form = None
     if t.coin(25, 100, "doc.sharedform"):
         # one form XObject without /Resources of its own, invoked by every page: it shows its text in whatever the
@@ -205,7 +225,7 @@ def text_document(t, ctx, label):
         features.add("resource-less form shared by pages")
     for p in range(npages):
         if p and t.coin(45, 100, "doc.replace"):
-            cur[t.pick([b"F1", b"F2"], "doc.which")] = t.pick(names, "doc.fnew")
+            cur[t.pick([b"F1", b"F2"], "doc.which")] = pick_variant(t, names, theme, "doc.fnew")
             features.add("page replaces font under same resource name")
         elif p:
             features.add("pages share font object")
@@ -319,16 +339,19 @@ def sample_document(t, ctx, repo, label):
 def make_pool(t, ctx, repo):
     n = t.rint(3, 8, "pool.n")
     pool = []
+    theme = []
+    for _ in range(t.rint(1, 2, "pool.themes")):
+        theme += t.pick(FAMILIES, "pool.theme")
     for i in range(n):
         k = t.weighted([6, 2, 2], "pool.kind")
         d = None
         if k == 0:
-            d = text_document(t, ctx, "text%d" % i)
+            d = text_document(t, ctx, "text%d" % i, theme)
         elif k == 1:
             d = gfx_document(t, ctx, "gfx%d" % i)
         else:
             d = sample_document(t, ctx, repo, "sample%d" % i)
         if d is None:
-            d = text_document(t, ctx, "text%d" % i)
+            d = text_document(t, ctx, "text%d" % i, theme)
         pool.append(d)
     return pool
